@@ -57,12 +57,17 @@ def strategy(tier):
         st.sampled_from(RAISABLE), st.integers(1, 3), min_size=1, max_size=2))
     # a client task is in the middle of a facade command (the spa does not acknowledge) when the first reset / exit comes
     infl = st.one_of(st.none(), st.none(), st.none(), st.tuples(st.sampled_from(["press", "press-task", "pump", "temp"]), st.sampled_from([0.3, 1.0, 3.0, 5.5, 7.0])).map(list))
-    return st.builds(lambda cs, ex, es, j, sm, rm, inf: dict({"cycles": cs, "exit_at": ex, "jitter": j, "suspend_map": sm}, **({"exit_step": es} if es else {}),
-                                                             **({"raise_map": rm} if rm else {}), **({"inflight": inf} if inf else {})),
-                     st.lists(cyc, min_size=0, max_size=5), t, st.one_of(st.just(0), st.just(0), st.integers(1, 400)), jitter, smap, rmap, infl)
+    # the facade of a connection that completed its handshake cannot be built (injected fault: the constructor of one of its parts
+    # raises the first n times) - one more way for a connection attempt to end with an exception of its own
+    ffault = st.one_of(st.none(), st.none(), st.none(), st.none(), st.tuples(st.sampled_from(FACADE_PARTS), st.integers(1, 3)).map(list))
+    return st.builds(lambda cs, ex, es, j, sm, rm, inf, ff: dict({"cycles": cs, "exit_at": ex, "jitter": j, "suspend_map": sm}, **({"exit_step": es} if es else {}),
+                                                                 **({"raise_map": rm} if rm else {}), **({"inflight": inf} if inf else {}),
+                                                                 **({"facade_fault": ff} if ff else {})),
+                     st.lists(cyc, min_size=0, max_size=5), t, st.one_of(st.just(0), st.just(0), st.integers(1, 400)), jitter, smap, rmap, infl, ffault)
 
 
 _STEPS = {}
+FACADE_PARTS = ["GeckoWaterHeater", "GeckoKeypad", "GeckoPump", "GeckoLight", "GeckoSwitch"]
 
 
 def enumerated(tier):
@@ -81,6 +86,13 @@ def enumerated(tier):
     # attempt; a reset and the exit follow
     for step in range(28, 56):
         dark.append({"cycles": [["none", "reset", 6.0, 0]], "exit_at": 3.0, "jitter": [], "suspend_map": {}, "kick": [step]})
+    # the facade cannot be built the first n times (one of its parts raises); a reset / the exit comes while a later attempt is
+    # under way or after one succeeded
+    for part in FACADE_PARTS:
+        for n_ in (1, 3):
+            for at_ in (4.5, 6.0, 12.0, 30.0):
+                dark.append({"cycles": [["none", "reset", at_, 0]], "exit_at": 3.0, "jitter": [], "suspend_map": {}, "facade_fault": [part, n_]})
+            dark.append({"cycles": [], "exit_at": 5.0 + n_, "jitter": [], "suspend_map": {}, "facade_fault": [part, n_]})
     if tier != "thorough":
         return len(dark), lambda i: dark[i]
     n = 420
@@ -388,8 +400,37 @@ def run_case(case) -> Result:
                     res.fail("C10|unbounded-growth", f"after cycle {n}: {c[0]} open endpoints / {c[1]} live connection tasks; after cycle 0: {base}")
                     break
 
-    W.run(main)
-    res.nontrivial = info["busy_inject"] or info.get("raised", 0) > 0
+    ff = case.get("facade_fault")
+    undo = None
+    if ff:
+        if ff[0] not in FACADE_PARTS or not 1 <= int(ff[1]) <= 3:
+            raise InvalidCase(case)
+        import geckolib.automation.async_facade as AF
+        real, left = getattr(AF, ff[0]), [int(ff[1])]
+
+        def failing_part(*a, **kw):
+            if left[0] > 0:
+                left[0] -= 1
+                info["facade_failed"] = info.get("facade_failed", 0) + 1
+                info["facade_failed_at"] = W.clock.t
+                raise RuntimeError(f"injected fault: {ff[0]} cannot be built")
+            return real(*a, **kw)
+        setattr(AF, ff[0], failing_part)
+        undo = lambda: setattr(AF, ff[0], real)
+    try:
+        W.run(main)
+    except (HarnessError, asyncio.CancelledError):
+        # a case that no longer ends (step limit of the virtual loop) or whose driver is cancelled from inside the library is a
+        # harness matter - unless the oracles had already spoken: what they found up to that point stands
+        if not res.violations:
+            raise
+        res.label("aborted-after-violation")
+    finally:
+        if undo:
+            undo()
+    if info.get("facade_failed"):
+        res.label("facade-construction-failed")
+    res.nontrivial = info["busy_inject"] or info.get("raised", 0) > 0 or info.get("facade_failed", 0) > 0
     if info.get("raised"):
         res.label("connection-attempt-raised")
     if "inflight_at" in info:
